@@ -24,7 +24,7 @@ META = {
                    'payload is symbolic, so single-vs-batch agreement and feature routing are decided for all values. '
                    'validate_model_function dispatch is executed once per callable kind (finite type dispatch, no symbolic input).',
     'bounds': {'quick': {'d': '1..3', 'batch n': '1..3', 'classes c': '2..3', 'key orders': 'all d! (+ an extra unexplained feature)'},
-               'thorough': {'d': '1..4', 'batch n': '1..4', 'classes c': '2..4', 'key orders': 'all d!'}},
+               'thorough': {'d': '1..5', 'batch n': '1..5', 'classes c': '2..5', 'key orders': 'all d!'}},
     'outside': ['real torch tensors / autograd / devices (TorchWrapper runs against a stub torch)', 'real scikit-learn estimators and '
                 'river models beyond the dispatch on their bound methods', 'dtype effects (integer / string arrays)',
                 'models whose rows are not computed independently'],
@@ -36,7 +36,7 @@ META = {
 
 def configs(tier):
     cfgs = []
-    dmax, nmax, cmax = (3, 3, 3) if tier == 'quick' else (4, 4, 4)
+    dmax, nmax, cmax = (3, 3, 3) if tier == 'quick' else (5, 5, 5)
     single_shapes = ['()', '(1,)', '(1,1)'] + [f"({c},)" for c in range(2, cmax + 1)] + [f"(1,{c})" for c in range(2, cmax + 1)]
     for wr in ('sklearn', 'torch'):
         for shp in single_shapes:
